@@ -8,27 +8,27 @@ From Ergo Require Import Common.Base Sched.Model Sched.CountFacts Sched.TokenInv
    self-sends during init, and EVERY schedule of their atomic steps: in the reached
    configuration at most one goroutine is inside a callback of the process (init, message
    handling incl. a pending Call, terminate). *)
-Theorem C01_process_serial : forall sched named selfs initok others,
+Theorem C01_process_serial : forall sched named lim fb selfs initok others,
   Forall (fun p => init_pc p = true) others ->
-  count open_cb (thr (run sched (init_cfg named selfs initok others))) <= 1.
+  count open_cb (thr (run sched (init_cfg named lim fb selfs initok others))) <= 1.
 Proof. intros. apply Inv_no_overlap. apply Inv_reachable. assumption. Qed.
 Print Assumptions C01_process_serial.
 
 (* The mechanism: at most one goroutine owns the process (spawner in Init, runner between a
    successful wake-up CAS and its return to Sleep, the finaliser after Swap(Terminated)). *)
-Theorem C01_single_owner : forall sched named selfs initok others,
+Theorem C01_single_owner : forall sched named lim fb selfs initok others,
   Forall (fun p => init_pc p = true) others ->
-  let c := run sched (init_cfg named selfs initok others) in
+  let c := run sched (init_cfg named lim fb selfs initok others) in
   count spawn_pre (thr c) + count run_pre (thr c) + count post_early (thr c) + count post_late (thr c) <= 1.
 Proof. intros. apply Inv_owner_le1. apply Inv_reachable. assumption. Qed.
 Print Assumptions C01_single_owner.
 
 (* The wake-up CAS issued by a self-send inside ProcessInit can never start a runner. *)
-Theorem C01_no_runner_during_init : forall sched named selfs initok others,
+Theorem C01_no_runner_during_init : forall sched named lim fb selfs initok others,
   Forall (fun p => init_pc p = true) others ->
-  count impossible (thr (run sched (init_cfg named selfs initok others))) = 0.
+  count impossible (thr (run sched (init_cfg named lim fb selfs initok others))) = 0.
 Proof.
-  intros. pose proof (Inv_reachable sched named selfs initok others H) as HI.
+  intros. pose proof (Inv_reachable sched named lim fb selfs initok others H) as HI.
   unfold Inv, InvN in HI. tauto.
 Qed.
 Print Assumptions C01_no_runner_during_init.
@@ -53,7 +53,7 @@ Print Assumptions C01_meta_serial_refuted_before_fix.
    sender and two Kill callers are in flight *)
 Example C01_example :
   let c := run [0;0;0;0;0;0;0; 1;1;1;1;1;1; 4;4;4;4;4;4;4;4;4;4;4;4;4;4;4;4; 5;5;5;5;5;5;5; 2;2;3;3]
-               (init_cfg false [] true
+               (init_cfg false 0 false [] true
                   [S_load false [mk_msg 1 2 (BOk 2)]; K_load; K_load; S_load false [mk_msg 2 0 (BCall 0)]]) in
   count open_cb (thr c) = 1 /\ st (sh c) = Zombee.
 Proof. vm_compute. split; reflexivity. Qed.
